@@ -466,24 +466,35 @@ def export_recs(recs, program, points, dparam):
 JOBS = {"analyze": job_analyze}
 
 
+def handle(job):
+    signal.alarm(int(job.get("timeout", 120)))
+    try:
+        res = JOBS[job["kind"]](job)
+    except JobTimeout:
+        res = {"id": job["id"], "stage": "timeout"}
+    except Unsupported as ex:
+        res = {"id": job["id"], "stage": "unsupported", "msg": str(ex)}
+    except Exception as ex:
+        res = {"id": job["id"], "stage": "worker", "exc": type(ex).__name__, "msg": str(ex)[:500],
+               "tb": traceback.format_exc()[-1500:]}
+    finally:
+        signal.alarm(0)
+    sys.stdout.write("@@RESULT " + json.dumps(res) + "\n")
+    sys.stdout.flush()
+
+
 def main():
-    jobs = json.load(sys.stdin)
     signal.signal(signal.SIGALRM, _alarm)
-    for job in jobs:
-        signal.alarm(int(job.get("timeout", 120)))
-        try:
-            res = JOBS[job["kind"]](job)
-        except JobTimeout:
-            res = {"id": job["id"], "stage": "timeout"}
-        except Unsupported as ex:
-            res = {"id": job["id"], "stage": "unsupported", "msg": str(ex)}
-        except Exception as ex:
-            res = {"id": job["id"], "stage": "worker", "exc": type(ex).__name__, "msg": str(ex)[:500],
-                   "tb": traceback.format_exc()[-1500:]}
-        finally:
-            signal.alarm(0)
-        sys.stdout.write("@@RESULT " + json.dumps(res) + "\n")
-        sys.stdout.flush()
+    real_stdout = sys.stdout
+    if os.environ.get("POLAR_WORKER_STREAM"):
+        # one JSON job per line on stdin
+        for line in sys.stdin:
+            line = line.strip()
+            if line:
+                handle(json.loads(line))
+    else:
+        for job in json.load(sys.stdin):
+            handle(job)
 
 
 if __name__ == "__main__":
